@@ -333,6 +333,16 @@ pub fn roundtrip<B: Backend>(rec: &mut Recorder, st: &mut Stats, cfg: &Cfg) {
     // PBKW: small-cost lattice x passwords, plus default parameters twice
     reset(rec, "pw");
     let mut i = 0;
+    // Argon2id with several lanes: valid PASERK parameters that the RustCrypto backends implement (libsodium's Argon2 has a fixed
+    // parallelism of 1, paseto-v4-sodium refuses the others by design and is not asked)
+    if B::NAME == "v2" || B::NAME == "v4" {
+        for (ci, cost) in [(64u64 * 1024, 1u32, 2u32), (128 * 1024, 2, 4), (96 * 1024, 1, 3)].into_iter().enumerate() {
+            let k = &w.locals[ci % w.locals.len()];
+            if let Some((_, blob)) = pw_wrap::<B, Local>(rec, st, k, &w.passwords[0], Some(cost), None) {
+                pw_unwrap::<B, Local>(rec, st, &blob, &w.passwords[0], json!({"cls":"honest"}));
+            }
+        }
+    }
     for pass in &w.passwords {
         for ci in 0..(if cfg.thorough { 8 } else { 3 }) {
             let cost = small_cost(B::VER, i + ci);
